@@ -27,7 +27,7 @@ COMMENT_RULES = {"line": r"/#[^\n]*/", "block": r"/\/\*[^*]*\*\//", "both": r"/#
 # literals that are always *spelled* with an escape sequence in the grammar text (textX decodes it: same literal)
 SPELLED = {"end": "'\\x65nd'", "begin": "'b\\u0065gin'"}
 # literals that need an escape to be written at all (a quote, a backslash)
-ESC_LITS = ["don't", "a\\b"]
+ESC_LITS = ["don't", "a\\b", "#def", "2nd", "call("]  # ... and literals that mix letters with a leading symbol / digit
 
 
 def esc_str(lit):
